@@ -172,6 +172,12 @@ func (o Op) String() string {
 		}
 	case "inskey", "upskey", "qkey", "delkey":
 		s += fmt.Sprintf("(%q)", o.Key)
+		if len(o.Chain) > 0 {
+			s += " behind "
+			for _, f := range o.Chain {
+				s += f.String() + "."
+			}
+		}
 	case "delall":
 		s += "("
 		for _, f := range o.Chain {
